@@ -23,8 +23,10 @@ LEVEL = 'other'
 TECHNIQUE = 'exhaustive partial evaluation over the 24 EulerRot variants + polynomial identity checking over sin/cos atoms (MIR abstract interpretation)'
 EXPLANATION = ('For all angles and axes, every rotation constructor is decided to be the documented right-handed rotation (Rodrigues / elementary matrices / half-angle quaternions) '
                'and every one of the 24 x 7 from_euler instances equals the documented product of single-axis rotations, as exact identities in sin/cos atoms. '
-               'The inverse direction (to_euler, to_axis_angle) involves inverse trigonometric numerics and is not decided.')
-LEVEL_NOTE = 'Decides the constructor clause for all inputs; the decomposition (to_*) clause is numeric and not claimed. Trusted: rustc MIR, intrinsic table, rules/spec.py, sin^2+cos^2=1.'
+               'The inverse direction is decided structurally: to_euler (24 orders x Mat3/Mat3A/DMat3, Quat/Mat4 by delegation) returns on its regular branch +-atan2 of operands '
+               'proportional to (sin, cos) of each angle of the reference rotation with a factor positive on the principal range, its gimbal threshold is O(eps) of the scalar type, '
+               'and to_axis_angle / to_scaled_axis rebuild the quaternion.  Error growth near the singularities is not decided.')
+LEVEL_NOTE = 'Decides the constructor clause and the regular-branch inversion clause for all inputs; numeric error near gimbal lock is not claimed. Trusted: rustc MIR, intrinsic table, rules/spec.py, sin^2+cos^2=1.'
 
 CONFIGS_QUICK = ['sse2', 'scalar']
 CONFIGS_THOROUGH = ['sse2', 'scalar', 'coresimd', 'neon', 'wasm32']
